@@ -1,5 +1,7 @@
-"""C15 - deductive part: finite class table + structure of `direct` (contracts/moves_static.py).  The wire walk over two symbolic
-DAGs, circuit_is_isomorphic (networkx matcher), the GED methods and the redundancy filters are [B-only]/[N]."""
+"""C15 - deductive part: finite class table + structure of `direct` and one extracted walk step (contracts/moves_static.py); the walk as
+a loop invariant robust to carried state, add_control_target_to_dag (contracts/cmp_walk.py), the redundancy filters and the dispatch
+of compare_circuits / circuit_is_isomorphic over an uninterpreted verdict (contracts/cmp_filters.py), the matcher callbacks on finite
+tables (contracts/cmp_callbacks.py).  networkx's matcher itself and the GED methods are [B-only]/[N]."""
 from __future__ import annotations
 
 from vf.core import Deductive
@@ -22,6 +24,11 @@ def deductive(tier="quick", seed=0):
         "check_redundant_circuit, CircuitStorage",
     ]
     d.not_applicable_clauses += ["GED-based comparison methods (networkx optimisers with wall-clock timeouts)"]
+    # walk of direct() as a loop invariant, add_control_target_to_dag, redundancy filters, dispatch, matcher callbacks:
+    # contracts/cmp_walk.py, cmp_filters.py, cmp_callbacks.py (refuted obligations = recorded findings #1, #2: props/C15.findings.md)
+    from contracts import cmp_walk
+
+    d = cmp_walk.extend_deductive(d)
     return d
 
 
